@@ -249,19 +249,20 @@ def classify_reject(trace_lines, bad):
         elif ln["ev"] == "SubscribeCalled":
             filt[a["s"]] = a["f"]
             dupf[a["s"]] = a.get("dup", False)
-        elif ln["ev"] == "Received":
+        elif ln["ev"] in SEND_EVS:
             got.setdefault(a["s"], []).append(a["v"])
     a = bad.get("a", {})
     if ev in ("Received", "SendBlocked", "SendFailed"):
+        # a message reached (the stream of) a subscriber that the specification would not have sent there
         s, v = a.get("s"), a.get("v")
         if v not in pubs:
-            return "reject/%s/never-published" % ev
+            return "reject/delivery/never-published"
         f = filt.get(s, [])
         if f and pubs[v] not in f:
-            return "reject/%s/filter-mismatch" % ev
+            return "reject/delivery/filter-mismatch"
         if v in got.get(s, []):
-            return "reject/%s/duplicate%s" % (ev, "-with-repeated-filter-entry" if dupf.get(s) else "")
-        return "reject/%s/order-or-missing-predecessor" % ev
+            return "reject/delivery/duplicate%s" % ("-with-repeated-filter-entry" if dupf.get(s) else "")
+        return "reject/delivery/order-or-missing-predecessor%s" % ("-with-repeated-filter-entry" if dupf.get(s) else "")
     if ev == "End":
         live = set()
         for ln in trace_lines:
